@@ -1978,6 +1978,7 @@ class Engine:
                         outs.append(qa2)
             # --- path B: one generic iteration
             induct = self.lockstep_vars(q, f, s, kind)
+            dw = self.do_while_counter(q, f, s) if kind == "do" else None
             for d in mods:
                 lv = f.binds.get(d)
                 if lv is not None:
@@ -1985,6 +1986,11 @@ class Engine:
             q.loopdepth += 1
             self.emit(q, "LOOP_BEGIN", loc=s.get("loc"), extra={"range": s.get("range") is not None})
             self.apply_lockstep(q, f, induct, s)
+            if dw is not None:
+                # do { ... } while (++v != N) with v starting at c0 < N: every iteration runs with c0 <= v < N
+                lv_, c0_, n_ = dw
+                self.assume(q, cmp_("<", q.mem[lv_], C(n_)), s.get("loc"), kind="loop-invariant")
+                self.assume(q, cmp_("<=", C(c0_), q.mem[lv_]), s.get("loc"), kind="loop-invariant")
             iters = [q]
             if kind == "forrange":
                 iters = []
@@ -2107,6 +2113,24 @@ class Engine:
                         outs.append(q3)
         return outs
 
+    def do_while_counter(self, q, f, s):
+        """(variable lvalue, start constant, bound constant) of `do { body } while (++v != N)` / `(++v < N)` where the body does not
+        modify v and v holds a constant below N when the loop is entered"""
+        c = self._strip_e(s.get("c"))
+        if not (isinstance(c, dict) and c.get("k") == "bin" and c.get("op") in ("!=", "<")):
+            return None
+        l, r = self._strip_e(c["l"]), self._strip_e(c["r"])
+        if not (isinstance(l, dict) and l.get("k") == "un" and l.get("op") == "++" and not l.get("post") and self._strip_e(l["e"]).get("k") == "ref" and isinstance(r, dict) and "cv" in r):
+            return None
+        d = self._strip_e(l["e"])["d"]
+        body_mods = set()
+        self.modified_vars(s.get("body"), body_mods)
+        lv = f.binds.get(d)
+        if d in body_mods or lv is None or not is_const(q.mem.get(lv)):
+            return None
+        c0, n = q.mem[lv][1], int(r["cv"])
+        return (lv, c0, n) if c0 < n else None
+
     def lockstep_vars(self, q, f, s, kind):
         """Variables of a `for` loop that its increment expression advances by exactly one per iteration (`++a, ++b`) and that nothing else
         in the loop modifies: after k iterations each holds its pre-loop value advanced by k, for ONE k common to all of them.  Only used
@@ -2215,7 +2239,68 @@ class Engine:
                 continue
             paths.append(PathResult(s.events, s.retval, s))
         self.mark_abort_checks(paths)
+        self.flatten_nested_state(paths)
         return paths
+
+    def nested_state_members(self):
+        """names of data members that merely GROUP other members: a member whose type is a small aggregate of scalars declared inside
+        the same class, none of whose member names collides with a member of the enclosing class.  `this->grp.x` is then presented
+        as `this->x` (a class whose fields were gathered into a private struct has the same state)"""
+        if hasattr(self, "_nested_members"):
+            return self._nested_members
+        out = set()
+        for r in self.db.records:
+            if r.get("dep") or (r.get("n") or "").startswith("std::"):
+                continue
+            own = {fl["n"] for fl in r.get("fields") or []}
+            for fl in r.get("fields") or []:
+                ft = fl.get("t") or {}
+                if not self.is_rec(ft) or not strip_targs_name(ft.get("rn") or "").startswith(strip_targs_name(r.get("n") or "?") + "::"):
+                    continue
+                leaves = self.scalar_leaves(ft.get("rid"))
+                if leaves and all(len(pth) == 1 for pth in leaves) and not ({pth[0] for pth in leaves} & own):
+                    out.add(fl["n"])
+        self._nested_members = out
+        return out
+
+    def flatten_nested_state(self, paths):
+        names = self.nested_state_members()
+        if not names:
+            return
+        memo = {}
+
+        def fl(t):
+            if not isinstance(t, tuple):
+                return t
+            try:
+                if t in memo:
+                    return memo[t]
+            except TypeError:
+                return t
+            r = tuple(fl(x) for x in t)
+            if len(r) == 3 and r[0] == "fld" and isinstance(r[1], tuple) and len(r[1]) == 3 and r[1][0] == "fld" and r[1][2] in names:
+                r = ("fld", r[1][1], r[2])
+            memo[t] = r
+            return r
+
+        def flv(x):
+            if isinstance(x, tuple):
+                return fl(x)
+            if isinstance(x, list):
+                return [flv(y) for y in x]
+            if isinstance(x, dict):
+                return {k: flv(v) for k, v in x.items()}
+            return x
+        for p in paths:
+            for e in p.events:
+                e.a, e.b, e.c = flv(e.a), flv(e.b), flv(e.c)
+                if e.extra:
+                    for k in ("ret", "argvals", "target"):
+                        if k in e.extra:
+                            e.extra[k] = flv(e.extra[k])
+            p.retval = flv(p.retval)
+            p.state.retval = flv(p.state.retval)
+            p.state.mem = {flv(k): flv(v) for k, v in p.state.mem.items()}
 
     @staticmethod
     def mark_abort_checks(paths):
